@@ -29,6 +29,7 @@ def export_world():
     w = World()
     from pyvc.interp import LocalSet
     w.builtin_models[set] = lambda it, xs=(): LocalSet(it.iterate(xs))
+    w.builtin_models[frozenset] = lambda it, xs=(): LocalSet(it.iterate(xs))
     w.builtin_models[str] = lambda it, x='': x if isinstance(x, str) else str(x)
     def hook(it, what, args):
         if what == ('contains',):
@@ -37,6 +38,39 @@ def export_world():
         return NotImplemented
     w.attr_hooks.append(hook)
     return w
+
+class ModelM(SymVal):
+    """the model of a predicate interpretation: its value set and Meta; any other function the real model class defines (a helper
+    introduced for the export) is interpreted from source, with class-level state shared across the scenarios as it is across models"""
+    CLASS_STATE = {}
+    def __init__(s, vnames): s.vnames = vnames
+    def sym_truth(s, it): return True
+    def sym_getattr(s, it, name):
+        from pytableaux.models import BaseModel
+        import types as _t
+        if name == 'values': return ValuesGet(s.vnames)
+        if name == 'Meta': return Holder(many_valued=len(s.vnames) > 2)
+        v_ = BaseModel.__dict__.get(name)
+        if isinstance(v_, (classmethod, staticmethod)): v_ = v_.__func__
+        if isinstance(v_, _t.FunctionType):
+            from pyvc.interp import BoundSource
+            return BoundSource(source.of_function(v_), v_, BaseModel, s)
+        if isinstance(v_, dict):           # a class-level dict: one object for every model of every logic
+            return ModelM.CLASS_STATE.setdefault(name, ClassDict())
+        raise Outside(f'Model.{name}')
+
+class ClassDict(SymVal):
+    def __init__(s): s.d = {}
+    def k(s, key): return repr(key)
+    def sym_getitem(s, it, key):
+        if s.k(key) in s.d: return s.d[s.k(key)]
+        raise PyExc(KeyError, (key,))
+    def sym_setitem(s, it, key, v): s.d[s.k(key)] = v
+    def sym_contains(s, it, key): return s.k(key) in s.d
+    def sym_getattr(s, it, name):
+        if name == 'get': return Contract(lambda it, key, d=None: s.d.get(s.k(key), d), 'dict.get')
+        if name == 'setdefault': return Contract(lambda it, key, d=None: s.d.setdefault(s.k(key), d), 'dict.setdefault')
+        raise Outside(f'dict.{name}')
 
 def having_obligations(ctx):
     "PredicateInterpretation.having and Frame._get_predicate_data_values, interpreted on every small interpretation"
@@ -54,7 +88,7 @@ def having_obligations(ctx):
             items = [(t, ValName(v)) for t, v in zip(tuples, assign)]
             class InterpM(SymVal):
                 def sym_getattr(s, it, name):
-                    if name == 'model': return Holder(values=ValuesGet(vnames), Meta=Holder(many_valued=len(vnames) > 2))
+                    if name == 'model': return ModelM(vnames)
                     if name == 'items': return Contract(lambda it: GenList(items), 'Mapping.items')
                     import types as _t
                     v_ = PredicateInterpretation.__dict__.get(name)
@@ -76,7 +110,7 @@ def having_obligations(ctx):
             class FrameM(SymVal):
                 def sym_getattr(s, it, name):
                     if name == 'predicates': return {'P': InterpM()}
-                    if name == 'model': return Holder(Meta=Holder(many_valued=len(vnames) > 2))
+                    if name == 'model': return ModelM(vnames)
                     if name == '_get_predicate_data_part':
                         from pyvc.interp import BoundSource
                         return BoundSource(source.of_function(fn3), fn3, BaseModel.Frame, s)
